@@ -395,7 +395,9 @@ func subtleCtors() []subtleCtor {
 		return m.ComputeMAC, nil
 	}
 	return []subtleCtor{
-		{name: "mac/subtle.NewHMAC", keyLen: 32, salt: false, build: func(k, _ []byte) (func([]byte) ([]byte, error), error) { return macFn(macsubtle.NewHMAC("SHA256", k, 32)) }},
+		{name: "mac/subtle.NewHMAC", keyLen: 32, salt: false, build: func(k, _ []byte) (func([]byte) ([]byte, error), error) {
+			return macFn(macsubtle.NewHMAC("SHA256", k, 32))
+		}},
 		{name: "mac/subtle.NewAESCMAC", keyLen: 32, salt: false, build: func(k, _ []byte) (func([]byte) ([]byte, error), error) { return macFn(macsubtle.NewAESCMAC(k, 16)) }},
 		{name: "daead/subtle.NewAESSIV", keyLen: 64, salt: false, build: func(k, _ []byte) (func([]byte) ([]byte, error), error) {
 			d, err := daeadsubtle.NewAESSIV(k)
